@@ -431,7 +431,6 @@ func readArgsShape(p *Prog, fs *FuncSrc, call *ast.CallExpr, curKey, rng *types.
 	return false, "the registered range must run " + what + "; got (" + exprStr(from) + ", " + exprStr(to) + ")"
 }
 
-
 // checkSilentScans: the set of oiTran implementations whose Read registers nothing is
 // frozen, and every iterator move driven with the non-registering fkeyTran is paired
 // with an explicit UpdateTran.Read.
